@@ -130,9 +130,34 @@ type c20Cfg struct {
 	//                Stop() is called, 1 = before sub.Drain, 2 = before conn.Flush, 3 = before conn.Barrier,
 	//                4 = before the wait on the barrier, 5 = after Stop has its result, before close(workC),
 	//                6 = from another goroutine a pseudo-random 0..400 µs after Stop() was called
+	opts    string // builder options: high watermark in ms or "d" (builder default, 5 s), then optional letters
+	//                g = WithQueueGroup, h = WithRequestReceived/Started/FinishedEventHandler (own handlers)
 	durs    []int  // handler duration per request, in units of 100 µs
 	kinds   []byte // what the handler does per request: r small reply (default), x declared exception,
 	//                e undeclared error, u / a / o reply one byte under / exactly at / one byte over the NATS limit
+}
+
+// watermark: the WithHighWatermark argument, ok = false for the builder's default.
+func (c c20Cfg) watermark() (time.Duration, bool) {
+	o := strings.TrimRight(c.opts, "gh")
+	if o == "" || o == "d" {
+		return 0, false
+	}
+	ms, _ := strconv.Atoi(o)
+	return time.Duration(ms) * time.Millisecond, true
+}
+func (c c20Cfg) optFlag(f byte) bool { return strings.IndexByte(strings.TrimLeft(c.opts, "d0123456789"), f) >= 0 }
+
+func c20OptsOK(o string) bool {
+	rest := strings.TrimRight(o, "gh")
+	if rest != "d" {
+		n, err := strconv.Atoi(rest)
+		if err != nil || n < 0 || n > 600000 || (len(rest) > 1 && rest[0] == '0') || rest[0] == '+' || rest[0] == '-' {
+			return false
+		}
+	}
+	fl := o[len(rest):]
+	return fl == "" || fl == "g" || fl == "h" || fl == "gh"
 }
 
 func (c c20Cfg) faultKind() byte {
@@ -166,12 +191,16 @@ func (c c20Cfg) line() string {
 	if f == "" {
 		f = "-"
 	}
-	return fmt.Sprintf("nsrun %d %d %d %d %d %d %d %s %s", c.w, c.q, c.stopPos, c.gapUs, c.delayUs, c.jitUs, c.pub2, f, strings.Join(ds, ","))
+	o := c.opts
+	if o == "" {
+		o = "d"
+	}
+	return fmt.Sprintf("nsrun %d %d %d %d %d %d %d %s %s %s", c.w, c.q, c.stopPos, c.gapUs, c.delayUs, c.jitUs, c.pub2, f, o, strings.Join(ds, ","))
 }
 
 func c20ParseCfg(args []string) (c20Cfg, bool) {
 	var c c20Cfg
-	if len(args) != 9 {
+	if len(args) != 10 {
 		return c, false
 	}
 	var err [7]error
@@ -194,7 +223,11 @@ func c20ParseCfg(args []string) (c20Cfg, bool) {
 	if c.fault != "-" && !(len(c.fault) == 2 && strings.IndexByte("cbs", c.fault[0]) >= 0 && c.fault[1] >= '0' && c.fault[1] <= '6') {
 		return c, false
 	}
-	for _, t := range strings.Split(args[8], ",") {
+	c.opts = args[8]
+	if !c20OptsOK(c.opts) {
+		return c, false
+	}
+	for _, t := range strings.Split(args[9], ",") {
 		k := byte('r')
 		if n := len(t); n > 0 && strings.IndexByte("xeuao", t[n-1]) >= 0 {
 			k, t = t[n-1], t[:n-1]
@@ -427,8 +460,32 @@ func c20Execute(cfg c20Cfg) c20Result {
 		return fail("client flush: " + err.Error())
 	}
 
-	server := frugal.NewFNatsServerBuilder(sconn, newC20Processor(run), binFactory, []string{reqSubject}).
-		WithWorkerCount(uint(cfg.w)).WithQueueLength(uint(cfg.q)).Build()
+	builder := frugal.NewFNatsServerBuilder(sconn, newC20Processor(run), binFactory, []string{reqSubject}).
+		WithWorkerCount(uint(cfg.w)).WithQueueLength(uint(cfg.q))
+	if wm, set := cfg.watermark(); set {
+		builder = builder.WithHighWatermark(wm)
+	}
+	if cfg.optFlag('g') {
+		builder = builder.WithQueueGroup(fmt.Sprintf("c20g%d", run.idx))
+	}
+	var evReceived, evStarted, evFinished, evBad int64
+	if cfg.optFlag('h') {
+		builder = builder.WithRequestReceivedEventHandler(func(p map[interface{}]interface{}) {
+			atomic.AddInt64(&evReceived, 1)
+			p["c20"] = run.idx
+		}).WithRequestStartedEventHandler(func(p map[interface{}]interface{}) {
+			atomic.AddInt64(&evStarted, 1)
+			if p["c20"] != run.idx {
+				atomic.AddInt64(&evBad, 1)
+			}
+		}).WithRequestFinishedEventHandler(func(p map[interface{}]interface{}) {
+			atomic.AddInt64(&evFinished, 1)
+			if p["c20"] != run.idx {
+				atomic.AddInt64(&evBad, 1)
+			}
+		})
+	}
+	server := builder.Build()
 	run.serverID = uint64(reflect.ValueOf(server).Pointer())
 	var injectOnce sync.Once
 	if fk != 0 {
@@ -767,6 +824,12 @@ func c20Execute(cfg c20Cfg) c20Result {
 	if connLost {
 		nRep = nP // the observable counts the replies handed to the connection
 	}
+	if cfg.optFlag('h') && serveState == "returned" {
+		rcv, st, fin, bad := atomic.LoadInt64(&evReceived), atomic.LoadInt64(&evStarted), atomic.LoadInt64(&evFinished), atomic.LoadInt64(&evBad)
+		if bad != 0 || st != int64(nD) || fin != int64(nP) || rcv < int64(nE+nX) || (fp < 0 && rcv != int64(nE+nX)) { // (after a fault callbacks may still be coming)
+			complaints = append(complaints, fmt.Sprintf("request event handlers: received %d (callbacks %d), started %d (dequeued %d), finished %d (processed %d), without the properties of their request %d", rcv, nE+nX, st, nD, fin, nP, bad))
+		}
+	}
 	blocked := false
 	if sc >= 0 {
 		eb, db := 0, 0
@@ -832,6 +895,14 @@ func c20GenCfg(r *Rng) c20Cfg {
 	c.jitUs = r.Pick(0, 0, 0, 100, 1000, 3000)
 	c.pub2 = r.Pick(0, 0, 40, 120, 300)
 	c.fault = "-"
+	// builder options: the watermark below / around / far above the time the backlog needs (0 .. 400 ms here)
+	c.opts = []string{"d", "d", "0", "1", "5", "20", "100", "1000"}[r.Intn(8)]
+	if r.Chance(20) {
+		c.opts += "g"
+	}
+	if r.Chance(30) {
+		c.opts += "h"
+	}
 	// handler outcomes: mostly small replies; a third of the configurations mix in declared exceptions and
 	// errors; one in twelve also one or two replies at the NATS limit (1 MiB on the wire each)
 	c.kinds = make([]byte, n)
@@ -860,13 +931,21 @@ func c20GenCfg(r *Rng) c20Cfg {
 // (then it is Stop that waits). Returns the configuration and the nominal drain time in seconds.
 func c20SlowCfg(r *Rng, k int) (c20Cfg, int) {
 	mk := func(w, q, n, durMs int) c20Cfg {
-		c := c20Cfg{w: w, q: q, stopPos: n, delayUs: 2000, fault: "-"}
+		c := c20Cfg{w: w, q: q, stopPos: n, delayUs: 2000, fault: "-", opts: "d"}
 		for i := 0; i < n; i++ {
 			c.durs = append(c.durs, durMs*10+r.Intn(200)) // + up to 20 ms
 		}
 		return c
 	}
-	switch k % 8 {
+	switch k % 10 {
+	case 1: // the backlog sits in the SUBSCRIPTION queue for longer than the default watermark (5 s): it is Stop
+		// that waits (~7 s) while the handler feeds an unbuffered queue; 5 s into it several requests are still
+		// pending behind the one the handler is sending
+		return mk(1, r.Intn(2), 11+r.Intn(2), 700), 7
+	case 8: // the same, far above every time constant of the code (5 s watermark, 10 s flush timeout)
+		return mk(1, 1, 16, 750), 12
+	case 9:
+		return mk(1, 6, 5, 500), 2 // below any multi-second bound
 	case 6: // the link stalls before conn.Flush: the flush times out after 10 s, the drain fails, the link recovers
 		c := mk(2, 3, 10, 30)
 		c.fault = "s2"
@@ -884,8 +963,6 @@ func c20SlowCfg(r *Rng, k int) (c20Cfg, int) {
 			return mk(2, 16+r.Intn(8), 16, 760), 6 // 2 workers, 16 x 0.76 s
 		}
 		return mk(1, 4+r.Intn(4), 4, 1520), 6 // 1 worker, 4 x 1.52 s
-	case 1:
-		return mk(1, 6, 5, 500), 2 // below any multi-second bound
 	case 2:
 		return mk(2, 12, 10, 1950), 10
 	case 3:
@@ -1098,6 +1175,17 @@ func c20RunConfigs(n int, gen func(k int) c20Cfg) {
 			if cfg.pub2 > 0 {
 				Stat("second-publisher-across-stop")
 			}
+			if wm, set := cfg.watermark(); set {
+				Stat("opt:watermark:" + wm.String())
+			} else {
+				Stat("opt:watermark:default")
+			}
+			if cfg.optFlag('g') {
+				Stat("opt:queue-group")
+			}
+			if cfg.optFlag('h') {
+				Stat("opt:event-handlers")
+			}
 			if cfg.fault != "-" && cfg.fault != "" {
 				Stat("fault:" + cfg.fault[:1] + ":step" + cfg.fault[1:])
 			}
@@ -1236,7 +1324,7 @@ func init() {
 		if n > 60 {
 			n = 60
 		}
-		cfg := c20Cfg{w: w, q: q, stopPos: n / 2, gapUs: 0, fault: "-"}
+		cfg := c20Cfg{w: w, q: q, stopPos: n / 2, gapUs: 0, fault: "-", opts: "d"}
 		for i := 0; i < n; i++ {
 			cfg.durs = append(cfg.durs, (i*7)%20)
 		}
